@@ -1,6 +1,7 @@
 #!/bin/sh
 # launcher used by every check: runs /venv python against /repo's working tree
-export PYTHONPATH=/repo:/verif/harness/stubs:/verif/harness
+# VERIF_REPO lets a developer point the harness at a scratch copy; registered checks always use /repo
+export PYTHONPATH=${VERIF_REPO:-/repo}:/verif/harness/stubs:/verif/harness
 export PROTOCOL_BUFFERS_PYTHON_IMPLEMENTATION=python
 export PYTHONHASHSEED=0
 export PYTHONDONTWRITEBYTECODE=1
